@@ -29,7 +29,9 @@ LEVEL = "proof"
 RULE = (
     "cases: (exported pool strategy, configuration from harness/translate/zoo.py incl. every None default that is resolved "
     "lazily, candidate mode none/idx/arr, data seed); each case = 2-3 consecutive queries with byte-wise digests of all "
-    "array arguments, structural get_params(deep=True) and model-argument snapshots before/after every query, "
+    "array arguments, structural get_params(deep=True) and model-argument snapshots before/after every query; for every strategy "
+    "with a fit_clf/fit_reg/fit_ensemble flag additionally the flag False with a model the caller fitted, with and without "
+    "sample_weight (fitted attributes and predictions of the model compared); "
     "pickle.dumps and clone-vs-twin equality. non-trivial = the query returned a batch and utilities; distinct = distinct "
     "(class, configuration, mode, seed)"
 )
@@ -64,16 +66,20 @@ def key_of(cls, f):
     return f"C05/{cls}.query/{f['kind']}/{f['name']}"
 
 
-def run_case(ctx, case, mode, seed, observed, n_queries=2):
+def run_case(ctx, case, mode, seed, observed, n_queries=2, variant=None):
     t0 = time.time()
-    findings, info = oracles.pool_side_effects(case, mode, seed, n_queries=n_queries)
-    replay = dict(case=case.key, mode=mode, seed=seed, n_queries=n_queries)
+    findings, info = oracles.pool_side_effects(case, mode, seed, n_queries=n_queries, variant=variant)
+    replay = dict(case=case.key, mode=mode, seed=seed, n_queries=n_queries, variant=variant)
+    if info.get("not_applicable"):
+        return
+    if variant:
+        ctx.count("variant_" + variant)
     if "raised" in info and not findings:
         ctx.count("query_raised:" + info["raised"].split(":")[0])
-        ctx.case((case.key, mode, seed), False)
+        ctx.case((case.key, mode, seed, variant), False)
         return
     nontriv = bool(info.get("outs"))
-    ctx.case((case.key, mode, seed), nontriv, sample=dict(case=case.key, mode=mode, seed=seed, findings=[f["kind"] + "/" + f["name"] for f in findings], seconds=round(time.time() - t0, 3)))
+    ctx.case((case.key, mode, seed, variant), nontriv, sample=dict(case=case.key, mode=mode, seed=seed, variant=variant, findings=[f["kind"] + "/" + f["name"] for f in findings], seconds=round(time.time() - t0, 3)))
     ctx.count("mode_" + mode)
     ctx.count("family_" + case.family)
     if case.lazy_none:
@@ -82,7 +88,7 @@ def run_case(ctx, case, mode, seed, observed, n_queries=2):
         ctx.count("twin_comparison_skipped_nondeterministic")
     for f in findings:
         observed.setdefault(case.cls_name, set()).add((f["kind"], f["name"]))
-        ctx.violate(key_of(case.cls_name, f), f"{case.cls_name}.query [{case.config}, candidates={mode}]: {f['what']}", dict(replay, finding=f["kind"] + "/" + f["name"]))
+        ctx.violate(key_of(case.cls_name, f), f"{case.cls_name}.query [{case.config}, candidates={mode}{', ' + variant if variant else ''}]: {f['what']}", dict(replay, finding=f["kind"] + "/" + f["name"]))
 
 
 def pool_cases():
@@ -108,6 +114,12 @@ def correspond(ctx):
         for seed in seeds:
             for mode in modes:
                 run_case(ctx, case, mode, seed, observed, n_queries=3 if ctx.thorough else 2)
+            if oracles.has_fit_flag(case):
+                # fit_<model>=False with a model the caller has fitted, with and without sample_weight
+                vmodes = case.cand_modes if (ctx.thorough or lead) else (case.cand_modes[(i + ctx.seed + 1) % len(case.cand_modes)],)
+                for mode in vmodes:
+                    for variant in ("prefit", "prefit-nosw"):
+                        run_case(ctx, case, mode, seed, observed, n_queries=2, variant=variant)
     # read-only probe (detector only)
     ro = {}
     for case in cases[:: (1 if ctx.thorough else 4)]:
@@ -188,6 +200,8 @@ def search(ctx):
                 continue
             for mode in case.cand_modes:
                 run_case(ctx, case, mode, ctx.seed + 1000 + 17 * rnd, observed, n_queries=4)
+                for variant in ("prefit", "prefit-nosw"):
+                    run_case(ctx, case, mode, ctx.seed + 1000 + 17 * rnd, observed, n_queries=2, variant=variant)
             if time.time() - t0 > (600 if ctx.thorough else 120):
                 return
         if ctx.violations:
@@ -200,7 +214,7 @@ def replay(payload):
     if case is None:
         print("unknown case", r.get("case"))
         return 2
-    findings, info = oracles.pool_side_effects(case, r["mode"], r["seed"], n_queries=r.get("n_queries", 2))
+    findings, info = oracles.pool_side_effects(case, r["mode"], r["seed"], n_queries=r.get("n_queries", 2), variant=r.get("variant"))
     for f in findings:
         print("REPRODUCED:", key_of(case.cls_name, f), "-", f["what"])
     if not findings:
